@@ -10,7 +10,7 @@
    intermediate states INSIDE shutil.rmtree / a cross-device shutil.move; the check kills the real
    commands before every syscall-level mutation for that. *)
 From TV Require Import Prelude.Str Prog.Prog Cmd.Put Cmd.Scan Cmd.Empty Cmd.Rm Cmd.Restore
-  Proofs.ProgProofs Proofs.PathProofs Proofs.OrderProofs Proofs.RestoreProofs World.World Proofs.WorldProofs Proofs.WorldPurge.
+  Proofs.ProgProofs Proofs.PathProofs Proofs.OrderProofs Proofs.RestoreProofs World.World Proofs.WorldProofs Proofs.WorldPurge Proofs.WorldRestore.
 Open Scope N_scope.
 
 Theorem rm_payload_before_info : forall o,
@@ -41,6 +41,13 @@ Theorem rm_payload_is_gone_when_info_is_removed : forall o,
   all_runs (fun t _ => forall s, wok payload_gone s t) (rm_main o).
 Proof. exact rm_payload_gone_lemma. Qed.
 Print Assumptions rm_payload_is_gone_when_info_is_removed.
+
+(* ---- and trash-restore: at every Move the destination is absent (C06), and whenever the info file of an entry is removed its
+   payload is no longer in the trash - it was the source of the move that has just returned ---- *)
+Theorem restore_payload_is_gone_when_info_is_removed : forall o,
+  all_runs (fun t _ => forall s, wok (restore_ok (ro_overwrite o)) s t) (restore_main o).
+Proof. exact restore_world_lemma. Qed.
+Print Assumptions restore_payload_is_gone_when_info_is_removed.
 
 (* ---- non-vacuity: the swapped order is rejected ---- *)
 Example info_first_is_rejected :
